@@ -463,7 +463,7 @@ def fmt_tle(p):
     ndots = f"{p['ndot']: 0.8f}".replace("0.", ".")
     l1 = (f"1 {p['norad']:05d}U {p['cospar']:<8} {p['year'] % 100:02d}{p['day']:012.8f} {ndots:>10} {exp_field(p['nddm'], p['ndde'])} "
           f"{exp_field(p['bm'], p['be'])} 0 {p['elnb']:>4}")
-    l2 = (f"2 {p['norad']:05d} {p['inc']:8.4f} {p['raan']:8.4f} {p['e7']:07d} {p['argp']:8.4f} {p['ma']:8.4f} {p['n8'] / 1e8:11.8f}{p['revs']:>5}")
+    l2 = (f"2 {p['norad']:05d} {p['inc']:8.4f} {p['raan']:8.4f} {p['e7']:07d} {p['argp']:8.4f} {p['ma']:8.4f} {p['n_revday'] if 'n_revday' in p else p['n8'] / 1e8:11.8f}{p['revs']:>5}")
     l1 += str(checksum(l1))
     l2 += str(checksum(l2))
     assert len(l1) == 69 and len(l2) == 69, (l1, l2)
@@ -646,7 +646,7 @@ def gen_directed(rng, k):
     names.insert(0, name + ("" if ok else "(threshold-not-reachable)"))
     l1, l2 = fmt_tle(_fix(p))
     info = info_of_lines(l1, l2)
-    info.update(regime="directed-" + regime, feature="+".join(names), side=rnd % 2, bstar=p["bm"] * 10.0 ** (p["be"] - 5))
+    info.update(regime="directed-" + regime, feature="+".join(names), side=rnd % 2, bstar=p["bm"] * 10.0 ** (p["be"] - 5), fields=p)
     return l1, l2, info
 
 
@@ -1007,6 +1007,245 @@ def check_tle(out, rng, l1, l2, info, offsets):
             out.fail(family_of(info, off, "native-label"), "native SGP4 gives different states for two labels of the same instant", dict(inp, other=str(other)), observed=goto, expected=gotn, dpos_m=dp)
 
 
+# ---------------------------------------------------------------- the wrapper clause on MUTABLE orbits obtained in every way
+#
+# "Propagating an orbit built from a TLE with the default SGP4 propagator returns the state given by the reference for that TLE":
+# an orbit is a mutable object.  Whatever way it was obtained (read from text — then it carries the Tle object it was read from —, loaded
+# from an OMM, built by hand, copied, converted to another form / frame and back) and whichever of the inputs of the satellite record
+# were edited in place since (each of the six elements, the epoch, B*, ndot, ndotdot, the label fields; before or after a first
+# propagation), the reply must be the reference's for the element set the orbit holds NOW.  Expected values: python-sgp4 on lines the
+# harness writes itself (fmt_tle) from the orbit's current values.
+
+SOURCES = ["tle.orbit", "tle.from_string", "tle-3-lines", "hand-built", "omm-kvn", "omm-xml", "copy", "deepcopy", "pickle",
+           "copy-of-propagated", "form-roundtrip", "frame-roundtrip"]
+EDIT_FIELDS = ["i", "Ω", "e", "ω", "M", "n", "date", "bstar", "ndot", "ndotdot", "norad_id", "cospar_id", "element_nb", "revolutions", "name"]
+ELEMENT_INDEX = {"i": 0, "Ω": 1, "e": 2, "ω": 3, "M": 4, "n": 5}
+NUMERIC_FIELDS = ["i", "Ω", "e", "ω", "M", "n", "date", "bstar", "ndot", "ndotdot"]
+
+
+def unfloat5(x):
+    """(mantissa, exponent) of the 'decimal point assumed' field for x = 0.ddddd x 10^exp — written here, not beyond's _unfloat"""
+    if x == 0:
+        return 0, 0
+    m, _, ex = f"{abs(x):.4e}".partition("e")
+    mant, ex = int(m.replace(".", "")), int(ex) + 1
+    if ex < -9:
+        mant, ex = int(round(abs(x) * 10 ** 14)), -9
+    if ex > 0:
+        ex = min(ex, 9)
+    return (-mant if x < 0 else mant), ex
+
+
+def fields_of_orbit(orb):
+    """TLE field values of what the orbit holds NOW, read through its public attributes (an independent formatter: no Tle.from_orbit)"""
+    o = orb if (str(orb.form) == "tle" and orb.frame.name == "TEME") else orb.copy(form="TLE", frame="TEME")
+    i, Om, e, w, M, n = (float(x) for x in o)
+    utc = o.date.change_scale("UTC").datetime
+    day = 1 + ((utc - _dt.datetime(utc.year, 1, 1)) // US) / 86_400_000_000
+    bm, be = unfloat5(float(o.bstar))
+    nm, ne = unfloat5(float(o.ndotdot) / 6)
+    cos = getattr(o, "cospar_id", "") or ""
+    y, _, piece = cos.partition("-")
+    return {"norad": int(getattr(o, "norad_id", 99999)), "cospar": (y[2:] + piece) if cos else "", "year": utc.year, "day": day, "ndot": float(o.ndot) / 2, "nddm": nm, "ndde": ne,
+            "bm": bm, "be": be, "elnb": int(o.element_nb), "inc": math.degrees(i) % 360, "raan": math.degrees(Om) % 360, "e7": int(f"{e:.7f}"[2:]) if 0 <= e < 1 else -1,
+            "argp": math.degrees(w) % 360, "ma": math.degrees(M) % 360, "n_revday": n * 86400 / (2 * math.pi), "revs": int(o.revolutions)}
+
+
+def make_orbit(source, l1, l2):
+    """an orbit holding the element set of the lines, obtained the given way; returns (orbit, note)"""
+    import copy as _copy
+    import pickle
+    from beyond.io.tle import Tle
+    from beyond.io import ccsds
+    from beyond.orbits import Orbit
+    text = l1 + "\n" + l2
+    if source == "tle.from_string":
+        return next(Tle.from_string(text)).orbit()
+    if source == "tle-3-lines":
+        return Tle("0 SAT-C07\n" + text).orbit()
+    t = Tle(text)
+    if source == "hand-built":
+        return Orbit(t.to_list(), t.epoch, "TLE", "TEME", "Sgp4", bstar=t.bstar, ndot=t.ndot, ndotdot=t.ndotdot, norad_id=t.norad_id, cospar_id=t.cospar_id,
+                     element_nb=t.element_nb, revolutions=t.revolutions, name="")
+    if source in ("omm-kvn", "omm-xml"):
+        t = Tle("SAT-C07\n" + text)
+        return ccsds.loads(ccsds.dumps(t.orbit(), fmt=source[4:]))
+    orb = t.orbit()
+    if source == "copy":
+        return orb.copy()
+    if source == "deepcopy":
+        return _copy.deepcopy(orb)
+    if source == "pickle":
+        return pickle.loads(pickle.dumps(orb))
+    if source == "copy-of-propagated":
+        orb.propagate(orb.date)
+        return orb.copy()
+    if source == "form-roundtrip":
+        return orb.copy(form="keplerian_mean").copy(form="TLE")
+    if source == "frame-roundtrip":
+        return orb.copy(frame="EME2000").copy(frame="TEME", form="TLE")
+    return orb
+
+
+def apply_edit(orb, tb, field, how):
+    """in-place edit of ONE input of the satellite record to the value the second element set `tb` (a parsed Tle) holds"""
+    if field in ELEMENT_INDEX:
+        v = float(tb.to_list()[ELEMENT_INDEX[field]])
+        if how == "index":
+            orb[ELEMENT_INDEX[field]] = v
+        else:
+            setattr(orb, field, v)
+    elif field == "date":
+        orb.date = tb.epoch
+    elif field == "name":
+        orb.name = "EDITED"
+    else:
+        setattr(orb, field, getattr(tb, field))
+
+
+_key_reads = []
+
+
+def history_key(orb):
+    """`Sgp4._state(orbit)` as read from the source (the list `stateKeyReads` of Generated/Sgp4WrapBind.lean), evaluated by the harness"""
+    if not _key_reads:
+        import re
+        _key_reads.extend(re.findall(r'"([^"]+)"', gen_wrap_bind().split("def stateKeyReads")[1].split("\n")[0]))
+    return tuple(orb.tobytes() if r == "tobytes" else str(getattr(orb, r)) if r in ("date", "form", "frame") else repr(orb._data.get(r)) for r in _key_reads)
+
+
+def gen_history(rng, k):
+    """k-th history: source and single edited field cycle (every source x field pair within len(SOURCES) x len(EDIT_FIELDS) cases), then combinations"""
+    regime = ["near-drag", "near-drag", "near-full", "deep"][k % 4]
+    pa, pb = base_fields(rng, regime), base_fields(rng, regime if rng.random() < 0.7 else "near-full")
+    if rng.random() < 0.25:
+        FEATURES[rng.randrange(len(FEATURES))][1](pa, rng, rng.randrange(2))
+    a, b = fmt_tle(_fix(pa)), fmt_tle(_fix(pb))
+    n_single = len(SOURCES) * len(EDIT_FIELDS)
+    if k % (n_single + 60) < n_single:
+        edits = [[EDIT_FIELDS[k % len(EDIT_FIELDS)]]]
+    else:
+        r = rng.random()
+        pool = ["bstar", "ndot", "ndotdot", "norad_id", "cospar_id", "element_nb", "revolutions", "name"] if r < 0.4 else EDIT_FIELDS
+        edits = [rng.sample(pool, rng.randint(2, min(5, len(pool))))] if r < 0.9 else [[]]
+    if rng.random() < 0.3:
+        edits.append([rng.choice(EDIT_FIELDS)] if rng.random() < 0.5 else ["back"])        # a second round: another field, or back to the original values
+    day = 86_400_000_000
+    offs = [rng.choice([-1, 1]) * rng.randint(day // 8, 12 * day) for _ in range(4)]
+    return {"lines": list(a), "lines_b": list(b), "source": SOURCES[(k // len(EDIT_FIELDS)) % len(SOURCES)] if k % (n_single + 60) < n_single else rng.choice(SOURCES),
+            "first_propagation": rng.random() < 0.5, "how": rng.choice(["index", "attr"]), "edits": edits, "offsets_us": offs, "label": rng.choice(LABELS)}
+
+
+def run_history(h, on_propagate, on_event=None):
+    """drive a real orbit through the history `h`; `on_propagate(orbit, expected_lines, offset_us, date, stage)` is called for every
+    propagation with the lines the harness writes from the orbit's current values; `on_event(kind, orbit)` for 'new' / 'edit'"""
+    from beyond.io.tle import Tle
+    from beyond.dates import Date
+    l1, l2 = h["lines"]
+    ta, tb = Tle(l1 + "\n" + l2), Tle(h["lines_b"][0] + "\n" + h["lines_b"][1])
+    orb = make_orbit(h["source"], l1, l2)
+    if on_event:
+        on_event("new", orb)
+    offs = list(h["offsets_us"])
+
+    def prop(stage):
+        cur = fmt_tle(fields_of_orbit(orb))
+        off = offs.pop(0) if offs else 3_600_000_000
+        epoch_utc = orb.date.change_scale("UTC").datetime
+        target = epoch_utc + off * US
+        date = Date(target, scale="UTC")
+        if h["label"] != "UTC":
+            date = date.change_scale(h["label"])
+        on_propagate(orb, cur, off, target, date, stage)
+    if h["first_propagation"]:
+        prop("first")
+    for n, fields in enumerate(h["edits"]):
+        for f in fields:
+            if f == "back":
+                for g in EDIT_FIELDS:
+                    if g != "name":
+                        apply_edit(orb, ta, g, h["how"])
+            else:
+                apply_edit(orb, tb, f, h["how"])
+        if on_event:
+            on_event("edit", orb)
+        prop(f"after-edit-{n + 1}")
+        if n == 0:
+            prop(f"after-edit-{n + 1}-again")
+
+
+def history_family(h, stage):
+    ed = "+".join(sorted(set(f for fs in h["edits"] for f in fs))) or "none"
+    return f"wrapper-history:{h['source']}:{'already-propagated' if h['first_propagation'] else 'never-propagated'}:edit={ed}:{stage}"
+
+
+@contextlib.contextmanager
+def frame_eq_by_name():
+    """proposed_fixes/C07-frame-identity-after-pickle.diff applied in memory (nothing written): frames compare by name.  Used only to
+    CLASSIFY a failing history of an unpickled orbit: if it disappears under this repair it belongs to the open finding
+    C07-unpickled-orbit-frame-identity, any other failure keeps its own family"""
+    from unittest.mock import patch
+    from beyond.frames.frames import Frame
+    with patch.object(Frame, "__eq__", lambda a, b: a.name == b.name if isinstance(b, Frame) else NotImplemented, create=True), \
+            patch.object(Frame, "__hash__", lambda a: hash(a.name), create=True):
+        yield
+
+
+def check_history(out, h, classify=True):
+    """oracle: after any history the default propagator returns the reference's state for the lines of the CURRENT values"""
+    if classify and h["source"] == "pickle":
+        # an unpickled orbit carries Frame objects equal to no registered frame (open finding): run the history on its own, classify its failures
+        sub = Outcome()
+        check_history(sub, h, classify=False)
+        if sub.failures:
+            rep_ = Outcome()
+            with frame_eq_by_name():
+                check_history(rep_, h, classify=False)
+            if not rep_.failures:
+                for f in sub.failures:
+                    f["family"] = "wrapper-history:unpickled-frame-identity"
+        out.cases += sub.cases
+        out.keys |= sub.keys
+        out.failures += sub.failures
+        for k, v in sub.dist.items():
+            out.dist[k] = out.dist.get(k, 0) + v
+        return
+    inp = {"history": h}
+
+    def on_propagate(orb, cur, off, target, date, stage):
+        sat = reference(*cur)
+        exp = ref_state(sat, target)
+        edited = sorted(set(f for fs in h["edits"] for f in fs)) if stage != "first" else []
+        out.count(key=(tuple(h["lines"]), h["source"], tuple(edited), stage, off), kind="wrapper-history", source=h["source"], stage=stage, first=h["first_propagation"],
+                  edited_numeric=any(f in NUMERIC_FIELDS or f == "back" for f in edited), ref="error" if exp is None else "ok")
+        for f in edited or ["(none)"]:
+            out.tally("history-edit-field=" + f)
+        if exp is None:
+            return
+        try:
+            got = [float(x) for x in orb.propagate(date)]
+        except Exception as e:
+            if tiny_fields(cur[0]):
+                out.tally("wrapper-history=two-digit-exponent-left-to-pinned-corpus")
+                return
+            out.fail(history_family(h, stage) + ":raises-" + type(e).__name__, "default SGP4 propagator raises after in-place edits where the reference returns a state for the current element set",
+                     dict(inp, stage=stage, current_lines=cur), observed=repr(e), expected=exp)
+            return
+        speed = norm(exp[3:])
+        dp, dv = dist(got, exp)
+        if not (dp <= tol_pos(speed) and all(map(math.isfinite, got))):
+            out.fail(history_family(h, stage), "default SGP4 propagator does not return the reference's state for the element set the orbit holds NOW "
+                     "(lines written by the harness from the orbit's current values)", dict(inp, stage=stage, current_lines=cur, offset_us=off, utc=target.isoformat()),
+                     observed=got, expected=exp, dpos_m=dp, tol_m=tol_pos(speed))
+    try:
+        run_history(h, on_propagate)
+    except Exception as e:
+        if h["source"].startswith("omm"):
+            out.tally("wrapper-history=" + h["source"] + "-load-raises-" + type(e).__name__ + "-(ccsds module, not an anchor of C07)")
+            return
+        raise
+
+
 def info_of_lines(l1, l2):
     """what the generator records about a TLE, recomputed from its text (pinned corpus, replay)"""
     year = int(l1[18:20])
@@ -1051,6 +1290,9 @@ def oracle(ctx, widened):
                 label = rng.choice(LABELS)
                 offsets.append((off, label, rng.choice([x for x in LABELS if x != label])))
             check_tle(out, rng, l1, l2, info, offsets)
+        # mutable orbits: every source x every edited input, before / after a first propagation (gen_history)
+        for k in range((12 if (widened or ctx.thorough) else 1) * (len(SOURCES) * len(EDIT_FIELDS) + 60)):
+            check_history(out, gen_history(rng, k))
         for _ in range(N):
             l1, l2, info = gen_tle(rng)
             if rng.random() < 0.1:
@@ -1069,6 +1311,10 @@ def replay(f):
     import random
     out = Outcome()
     i = f["input"]
+    if "history" in i:
+        with eop():
+            check_history(out, i["history"])
+        return out
     l1, l2 = i["line1"], i["line2"]
     info = info_of_lines(l1, l2)
     if i.get("name"):
@@ -1096,6 +1342,7 @@ class Recorder:
         from sgp4.io import twoline2rv
         from sgp4.earth_gravity import wgs72
         self.lines = [l1, l2]
+        self.binds = getattr(self, "binds", []) + [(l1, l2)]
         self.const_is_wgs72 = const is wgs72
         self.extra = (extra, kw)          # the model hands exactly (line1, line2, wgs72) to the library: its default mode of operation
         rec = self
@@ -1430,9 +1677,92 @@ def refspec_cases(ctx, out):
             out.sample({"request": req[:50] + "…", "python-sgp4": exp["state"], "spec": st}, limit=2)
 
 
+# ---------------------------------------------------------------- correspondence (4): the binding state machine
+
+REC_FIELDS = ["satnum", "epochyr", "epochdays", "ndot", "bstar", "inclo", "nodeo", "ecco", "argpo", "mo", "no_kozai"]
+
+
+def record_of(lines):
+    sat = reference(*lines)
+    return tuple(getattr(sat, f) for f in REC_FIELDS)
+
+
+def binding_cases(ctx, out):
+    """real Orbit / Sgp4 objects driven through random histories (sources x in-place edits x propagations) against `Sgp4Wrap.runSeq`
+    (`Machine.step`): the setter must run exactly when the model says, and the lines it hands to twoline2rv must be the ones the harness
+    writes from the values of the version the model names (always the current one when the key changed)"""
+    from unittest.mock import patch
+    rng = ctx.rng
+    reqs, meta = [], []
+    with eop():
+        for k in range(ctx.n(1, 8) * (len(SOURCES) * len(EDIT_FIELDS) + 60)):
+            h = gen_history(rng, k)
+            rec = Recorder()
+            rec.binds = []
+            toks, obs, versions, keys = [], [], [], {}
+
+            def on_propagate(orb, cur, off, target, date, stage):
+                key = history_key(orb)
+                kid = keys.setdefault(key, len(keys))
+                if (kid, cur) not in versions:
+                    versions.append((kid, cur))
+                ver = versions.index((kid, cur))
+                toks.extend([f"e{kid}:{ver}", "p"])
+                n0 = len(rec.binds)
+                try:
+                    orb.propagate(date)
+                    err = None
+                except TypeError:
+                    err = None           # the library reported an error code: `False + False`
+                except Exception as e:
+                    err = repr(e)
+                obs.append((len(rec.binds) - n0, rec.binds[-1] if rec.binds else None, stage, err))
+            try:
+                with patch("beyond.propagators.sgp4.twoline2rv", rec.twoline2rv):
+                    run_history(h, on_propagate)
+            except Exception as e:
+                out.tally("binding=" + h["source"] + "-raises-" + type(e).__name__ + "-left-to-oracle")
+                continue
+            if any(o[3] for o in obs):
+                out.tally("binding=wrapper-raises-left-to-oracle")
+                continue
+            reqs.append("wrapseq " + " ".join(toks))
+            meta.append((h, obs, versions))
+            out.count(key=(tuple(h["lines"]), h["source"], repr(h["edits"])), kind="binding-history", source=h["source"], first=h["first_propagation"], propagations=len(obs))
+    replies = core.Driver().run(reqs)
+    for req, (h, obs, versions), rep in zip(reqs, meta, replies):
+        toks = rep.split()
+        if len(toks) != len(obs):
+            out.fail("binding-model", "model rejected the history", {"history": h}, observed=obs, expected=rep)
+            continue
+        for (nb, lines, stage, _e), t in zip(obs, toks):
+            ran, ver = t.split(":")
+            out.tally(f"binding-setter-ran={ran}")
+            if (nb > 0) != (ran == "1") or nb > 1:
+                out.fail("binding-rebind", f"the orbit setter ran {nb} time(s) during this propagation, the model says {ran}", {"history": h, "stage": stage}, observed=nb, expected=int(ran))
+                break
+            want = versions[int(ver)][1]
+            if h["source"] == "pickle" and lines is not None and list(lines) != list(want):
+                # open finding C07-unpickled-orbit-frame-identity: `regen` (Tle.from_orbit, a parameter of the wrapper model) sends an unpickled
+                # orbit through a TEME -> TEME conversion; the oracle reports and classifies it, the binding logic is compared on the event only
+                out.tally("binding=unpickled-orbit-regen-differs-(open finding, left to the oracle)")
+                continue
+            try:
+                same = lines is not None and record_of(lines) == record_of(want)
+            except Exception:
+                same = lines is not None and list(lines) == list(want)
+            if not same:
+                numeric = lines is None or record_of(lines)[1:] != record_of(want)[1:]
+                out.fail(history_family(h, stage) + ":lines", "the lines handed to twoline2rv are not those of the values the orbit holds (version named by the model)",
+                         {"history": h, "stage": stage}, observed=list(lines) if lines else None, expected=list(want), violates_property=bool(numeric))
+                break
+        out.sample({"request": req[:80], "model": rep, "setter_ran": [o[0] for o in obs]}, limit=2)
+
+
 def correspondence(ctx):
     out = Outcome()
     wrapper_cases(ctx, out)
+    binding_cases(ctx, out)
     native_cases(ctx, out)
     refspec_cases(ctx, out)
     return out
